@@ -68,6 +68,28 @@ theorem idx_mem_lt {α} (l : List α) (k : Nat) (x : α) (h : (k, x) ∈ idx l) 
   have := idx_mem l k x h
   exact (List.getElem?_eq_some_iff.mp this).1
 
+theorem idx_of_get {α} : ∀ (l : List α) (k : Nat) (x : α), l[k]? = some x → (k, x) ∈ idx l := by
+  intro l
+  induction l with
+  | nil => intro k x h; simp at h
+  | cons a l ih =>
+    intro k x h
+    rw [idx_cons]
+    cases k with
+    | zero => simp at h; simp [h]
+    | succ k =>
+      simp only [List.getElem?_cons_succ] at h
+      exact List.mem_cons_of_mem _ (List.mem_map.mpr ⟨(k, x), ih k x h, rfl⟩)
+
+theorem filterMap_congr_mem' {α β} {f g : α → Option β} : ∀ {l : List α}, (∀ x ∈ l, f x = g x) → l.filterMap f = l.filterMap g := by
+  intro l
+  induction l with
+  | nil => intro _; rfl
+  | cons a l ih =>
+    intro h
+    simp only [List.filterMap_cons, h a (List.mem_cons_self ..)]
+    rw [ih (fun x hx => h x (List.mem_cons_of_mem _ hx))]
+
 /-- methods of a service from index `j` -/
 def declMethodsFrom (fi si : Nat) (fqn : String) : Nat → List MethodD → List Decl
   | _, [] => []
